@@ -6,4 +6,11 @@ UNITS = [u for u in async_node.UNITS + async_conn.UNITS + async_misc.UNITS if "C
 
 
 def check(tier, seed):
-    return check_property("C03", UNITS, tier, seed)
+    from pyvc import bounded
+    lines, ev, err = bounded.async_episodes("C03", tier, seed)
+    extra = {}
+    extra["bounded"] = list(extra.get("bounded", [])) + [ev]
+    for l in ev.get("known_finding_lines", []):
+        print(l)
+    code = check_property("C03", UNITS, tier, seed, extra=extra)
+    return bounded.finish_with_bounded("C03", code, lines, err)
